@@ -490,8 +490,10 @@ def _derivative_transformation_matrix(deriv_func_list: list, point: float, order
             f"Order {order} should not be greater than number of derivatives"
             f"functions {len(deriv_func_list)} provided."
         )
-    # Calculate derivatives of transformation evaluated at the point
-    derivs_at_pt = np.array([dev(point) for dev in deriv_func_list], dtype=float)
+    # Calculate derivatives of transformation evaluated at the point. Some transformations need
+    # array-like input (they use `x.size`) and some return a length-one array for a scalar.
+    point = np.float64(point)
+    derivs_at_pt = np.array([dev(point) for dev in deriv_func_list], dtype=float).reshape(-1)
     deriv_transf = np.zeros((order, order))
     for i in range(0, order):
         for j in range(0, i + 1):
